@@ -730,8 +730,9 @@ impl<'a, W: Write> YamlSerializer<'a, W> {
         Ok(())
     }
 
-    /// Write a scalar either as plain or as double-quoted with minimal escapes.
-    /// Called by most `serialize_*` primitive methods.
+    /// Write the name of an enum variant with data as a mapping key (`Variant: payload`): plain, or
+    /// double-quoted with minimal escapes. Plain only where every other mapping key is written plain
+    /// (`KeyScalarSink`): a name that reads as a boolean, null or number (`Y`, `No`, `On`, ...) is quoted.
     fn write_plain_or_quoted(&mut self, s: &str) -> Result<()> {
         if self.quote_all {
             // In quote_all mode: prefer single quotes, use double quotes when needed
@@ -740,7 +741,10 @@ impl<'a, W: Write> YamlSerializer<'a, W> {
             } else {
                 self.write_single_quoted(s)
             }
-        } else if is_plain_safe(s) && !is_unsafe_plain_shape(s) {
+        } else if is_plain_safe(s)
+            && is_plain_value_safe(s, self.yaml_12, true)
+            && !is_unsafe_plain_shape(s)
+        {
             self.out.write_str(s)?;
             Ok(())
         } else {
